@@ -10,30 +10,63 @@ From VTL Require Import Model.Interleave Proofs.InterleaveP.
 (* ---- the general theorem: unbounded threads, unbounded steps, EVERY interleaving, any initial store *)
 Theorem C17_confined_serializable :
   forall (disc : gvar -> prot) (progs : tid -> prog),
-  (forall i, confined disc i (progs i) = true) ->
+  (forall i, confined disc W_all i (progs i) = true) ->
   forall (st0 : gvar -> val) (sched : list tid) (i : tid),
   t_todo (c_thr (run sched (init st0 progs)) i) = [] ->
   t_obs (c_thr (run sched (init st0 progs)) i) = solo_result zero_store (progs i).
 Proof. exact confined_serializable. Qed.
 
+(* the same relative to a set W of watched globals: only reads of W are constrained, only observations of W are compared
+   (values written to W may depend on observations of W only) *)
+Theorem C17_confined_serializable_watched :
+  forall (disc : gvar -> prot) (W : gvar -> bool) (progs : tid -> prog),
+  (forall i, Forall (write_ok W) (progs i)) ->
+  (forall i, confined disc W i (progs i) = true) ->
+  forall (st0 : gvar -> val) (sched : list tid) (i : tid),
+  t_todo (c_thr (run sched (init st0 progs)) i) = [] ->
+  wobs W (t_obs (c_thr (run sched (init st0 progs)) i)) = wobs W (solo_result zero_store (progs i)).
+Proof. exact confined_serializable_W. Qed.
+
 (* before completion too: at every point of every interleaving a confined call has seen what it sees alone after the same steps *)
 Theorem C17_confined_prefix :
-  forall disc progs st0, (forall i, confined disc i (progs i) = true) ->
+  forall disc W progs st0, (forall i, Forall (write_ok W) (progs i)) -> (forall i, confined disc W i (progs i) = true) ->
   forall sched i, let c := run sched (init st0 progs) in
-  t_obs (c_thr c i) = v_obs (view_of st0 (t_done (c_thr c i))) /\ t_done (c_thr c i) ++ t_todo (c_thr c i) = progs i.
-Proof. intros disc progs st0 H. exact (confined_prefix disc progs st0 H). Qed.
+  wobs W (t_obs (c_thr c i)) = wobs W (v_obs (view_of st0 (t_done (c_thr c i)))) /\ t_done (c_thr c i) ++ t_todo (c_thr c i) = progs i.
+Proof. intros disc W progs st0 Hw H. exact (confined_prefix disc W progs st0 Hw H). Qed.
 
 (* `solo_result` is what the call observes when every other thread is idle, whatever earlier calls left in the globals *)
 Theorem C17_solo_is_alone :
-  forall disc i p, confined disc i p = true ->
+  forall disc i p, confined disc W_all i p = true ->
   forall st0 sched, let progs := fun j => if Nat.eqb j i then p else [] in
   t_todo (c_thr (run sched (init st0 progs)) i) = [] ->
   t_obs (c_thr (run sched (init st0 progs)) i) = solo_result zero_store p.
 Proof. exact solo_is_alone. Qed.
 
-(* ---- FAITHFUL skeleton of two run() calls (tokens 1 and 2; one statement, one transpile-time registry read) *)
-Definition pA : prog := prog_of_trace gmap_impl 1%Z (run_tags 1 1).
-Definition pB : prog := prog_of_trace gmap_impl 2%Z (run_tags 1 1).
+(* ---- FAITHFUL (current code: the viral-propagation registry is a ContextVar).  For ANY number of concurrent calls whose
+        access traces never read the registry before publishing their own (every recorded trace: checked on each run), of ANY
+        length, under EVERY interleaving: each completed call read, at every registry access, exactly what it reads alone.
+        (W_reg = the parse state and the per-thread cells; reads of the remaining process-wide globals are not constrained.) *)
+Theorem C17_registry_serializable_impl :
+  forall (trs : tid -> list tag) (toks : tid -> val), (forall i, reg_wf false (trs i) = true) ->
+  forall st0 sched i, let progs := fun j => prog_of_trace (gmap_impl j) (toks j) (trs j) in
+  t_todo (c_thr (run sched (init st0 progs)) i) = [] ->
+  wobs W_reg (t_obs (c_thr (run sched (init st0 progs)) i)) = wobs W_reg (solo_result zero_store (progs i)).
+Proof.
+  intros trs toks Hwf st0 sched i progs. apply (confined_serializable_W disc_impl W_reg progs).
+  - intros j. apply impl_trace_writes.
+  - intros j. apply impl_trace_confined. apply Hwf.
+Qed.
+
+(* the canonical run() / semantic_analysis / parse-only shapes satisfy that hypothesis, whatever their size *)
+Lemma rep_reg_wf n l : reg_wf true l = true -> (forall r, reg_wf true r = true -> reg_wf true (l ++ r) = true) -> forall r, reg_wf true r = true -> reg_wf true (rep n l ++ r) = true.
+Proof. intros Hl Happ. induction n; intros r Hr; simpl; [exact Hr|]. rewrite <- app_assoc. apply Happ. apply IHn. exact Hr. Qed.
+
+Theorem C17_run_shape_reads_registry_after_set : forall n k, reg_wf false (run_tags n k) = true.
+Proof.
+  intros n k. unfold run_tags. cbn [app reg_wf].
+  apply rep_reg_wf; [reflexivity | intros r Hr; exact Hr |].
+  cbn [app reg_wf]. induction k; simpl; [reflexivity | exact IHk].
+Qed.
 
 Definition race_found (g : gvar) (tokb : val) (pa pb : prog) : bool :=
   match race_schedule g 0 1 pa pb with
@@ -59,51 +92,81 @@ Proof.
     apply andb_true_iff in Hb. destruct Hb as [Hg Hv]. apply Nat.eqb_eq in Hg. apply Z.eqb_eq in Hv. subst. exact Hin.
 Qed.
 
-(* refuted: an interleaving in which both calls complete and call A transpiles under B's registry (reads token 2) *)
-Theorem C17_registry_race_refuted :
-  exists sched, finished sched (two pA pB) 0 = true /\ finished sched (two pA pB) 1 = true /\
-                obs_of sched (two pA pB) 0 <> solo_result zero_store pA /\ In (GRegistry, 2%Z) (obs_of sched (two pA pB) 0).
+(* the witness search finds NO registry race in the current skeletons (consistent with the theorem above) *)
+Definition pA : prog := prog_of_trace (gmap_impl 0) 1%Z (run_tags 1 1).
+Definition pB : prog := prog_of_trace (gmap_impl 1) 2%Z (run_tags 1 1).
+Example C17_no_registry_witness_impl :
+  race_schedule (gmap_impl 0 GRegistry) 0 1 pA pB = None /\ race_schedule GRegistry 0 1 pA pB = None.
+Proof. vm_compute. split; reflexivity. Qed.
+
+(* ---- REGRESSION WITNESS, behaviour BEFORE the fix (one process-wide registry): an interleaving in which both calls complete
+        and call A transpiles under B's registry (reads token 2) *)
+Definition pA_before_fix : prog := prog_of_trace gmap_before_fix 1%Z (run_tags 1 1).
+Definition pB_before_fix : prog := prog_of_trace gmap_before_fix 2%Z (run_tags 1 1).
+Theorem C17_registry_race_before_fix_refuted :
+  exists sched, finished sched (two pA_before_fix pB_before_fix) 0 = true /\ finished sched (two pA_before_fix pB_before_fix) 1 = true /\
+                obs_of sched (two pA_before_fix pB_before_fix) 0 <> solo_result zero_store pA_before_fix /\
+                In (GRegistry, 2%Z) (obs_of sched (two pA_before_fix pB_before_fix) 0).
 Proof. apply race_found_sound. vm_compute. reflexivity. Qed.
 
-(* the same for every run() shape with 1..3 statements and 1..3 transpile-time reads on either side (finite sweep, bound 3) *)
 Definition shapes3 : list (nat * nat) := list_prod [1; 2; 3] [1; 2; 3].
-Theorem C17_registry_race_all_shapes_le3 :
+Theorem C17_registry_race_all_shapes_le3_before_fix :
   forall sa sb, In sa shapes3 -> In sb shapes3 ->
-  race_found GRegistry 2%Z (prog_of_trace gmap_impl 1%Z (run_tags (fst sa) (snd sa)))
-                           (prog_of_trace gmap_impl 2%Z (run_tags (fst sb) (snd sb))) = true.
+  race_found GRegistry 2%Z (prog_of_trace gmap_before_fix 1%Z (run_tags (fst sa) (snd sa)))
+                           (prog_of_trace gmap_before_fix 2%Z (run_tags (fst sb) (snd sb))) = true.
 Proof.
   intros sa sb Ha Hb.
   assert (H : forallb (fun sa => forallb (fun sb =>
-            race_found GRegistry 2%Z (prog_of_trace gmap_impl 1%Z (run_tags (fst sa) (snd sa)))
-                                     (prog_of_trace gmap_impl 2%Z (run_tags (fst sb) (snd sb)))) shapes3) shapes3 = true)
+            race_found GRegistry 2%Z (prog_of_trace gmap_before_fix 1%Z (run_tags (fst sa) (snd sa)))
+                                     (prog_of_trace gmap_before_fix 2%Z (run_tags (fst sb) (snd sb)))) shapes3) shapes3 = true)
     by (vm_compute; reflexivity).
   rewrite forallb_forall in H. specialize (H sa Ha). rewrite forallb_forall in H. exact (H sb Hb).
 Qed.
 
-(* hence NO protection discipline (no assignment of locks / owners to the globals) makes the faithful skeletons confined *)
-Theorem C17_run_skeleton_not_confinable :
-  forall disc, ~ (confined disc 0 pA = true /\ confined disc 1 pB = true).
-Proof.
-  intros disc [Ha Hb].
-  destruct C17_registry_race_refuted as [sched [F0 [_ [Hne _]]]].
-  apply Hne. unfold obs_of.
-  apply (confined_serializable disc (two pA pB)).
-  - intros i. destruct i as [|[|i]]; simpl; [exact Ha | exact Hb | reflexivity].
-  - unfold finished in F0. destruct (t_todo (c_thr (run sched (init zero_store (two pA pB))) 0)); [reflexivity | discriminate].
-Qed.
-
-(* refuted: a failing semantic_analysis (raises while statement 1 is analysed) reads the other call's dataset_output *)
-Definition pSemErr : prog := prog_of_trace gmap_impl 1%Z [TParse; TRegSet; TDsOutSet; TVcDs; TRaise; TDsOutClear].
+(* ---- FAITHFUL, still refuted: a failing semantic_analysis (raises while statement 1 is analysed) reads the other call's
+        dataset_output (Exceptions.dataset_output is still one process-wide variable) *)
+Definition pSemErr : prog := prog_of_trace (gmap_impl 0) 1%Z [TParse; TRegSet; TDsOutSet; TVcDs; TRaise; TDsOutClear].
 Theorem C17_dataset_output_race_refuted :
   exists sched, finished sched (two pSemErr pB) 0 = true /\ finished sched (two pSemErr pB) 1 = true /\
                 obs_of sched (two pSemErr pB) 0 <> solo_result zero_store pSemErr /\ In (GDsOut, 2%Z) (obs_of sched (two pSemErr pB) 0).
 Proof. apply race_found_sound. vm_compute. reflexivity. Qed.
 
-(* ---- partial, FAITHFUL: the parse-only calls (create_ast, prettify) are serializable under every interleaving, in any number:
-        parser_lock confines the parse state *)
+(* ---- FAITHFUL, still refuted: VirtualCounter is reset only AFTER each statement, so a call's first intermediate name depends
+        on what another call left in the counter: B advances the counter, A then runs from start to end and reads 1 instead of 0 *)
+Definition residue_schedule (g : gvar) (pa pb : prog) : option (list tid) :=
+  match first_write g 0 pb with
+  | Some j => Some (repeat 1 (S j) ++ repeat 0 (length pa) ++ repeat 1 (length pb - S j))
+  | None => None
+  end.
+Theorem C17_virtual_counter_race_refuted :
+  exists sched, finished sched (two pSemErr pB) 0 = true /\ finished sched (two pSemErr pB) 1 = true /\
+                In (GVcDs, 0%Z) (solo_result zero_store pSemErr) /\ In (GVcDs, 1%Z) (obs_of sched (two pSemErr pB) 0) /\
+                ~ In (GVcDs, 0%Z) (obs_of sched (two pSemErr pB) 0).
+Proof.
+  destruct (residue_schedule GVcDs pSemErr pB) as [s|] eqn:E; [|vm_compute in E; discriminate].
+  exists s. vm_compute in E. inversion E; subst s. vm_compute.
+  repeat split; auto 10.
+  intros H. repeat (destruct H as [H|H]; [discriminate|]). exact H.
+Qed.
+
+(* hence NO protection discipline (no assignment of locks / owners to the globals) makes the faithful skeletons confined
+   with respect to ALL globals *)
+Theorem C17_run_skeleton_not_confinable :
+  forall disc, ~ (confined disc W_all 0 pSemErr = true /\ confined disc W_all 1 pB = true).
+Proof.
+  intros disc [Ha Hb].
+  destruct C17_dataset_output_race_refuted as [sched [F0 [_ [Hne _]]]].
+  apply Hne. unfold obs_of.
+  apply (confined_serializable disc (two pSemErr pB)).
+  - intros i. destruct i as [|[|i]]; simpl; [exact Ha | exact Hb | reflexivity].
+  - unfold finished in F0. destruct (t_todo (c_thr (run sched (init zero_store (two pSemErr pB))) 0)); [reflexivity | discriminate].
+Qed.
+
+(* ---- partial, FAITHFUL: the parse-only calls (create_ast, prettify) are serializable under every interleaving, in any number,
+        with respect to ALL globals: parser_lock confines the parse state *)
 Theorem C17_parse_calls_serializable_partial :
   forall (toks : tid -> val) st0 sched i,
-  let progs := fun j => prog_of_trace gmap_impl (toks j) parse_tags in
+  let progs := fun j => prog_of_trace (gmap_impl j) (toks j) parse_tags in
   t_todo (c_thr (run sched (init st0 progs)) i) = [] ->
   t_obs (c_thr (run sched (init st0 progs)) i) = solo_result zero_store (progs i).
 Proof.
@@ -111,9 +174,9 @@ Proof.
   intros j. apply parse_confined.
 Qed.
 
-(* ---- SPEC (the repair: registry, counters, representation and dataset_output per thread, each call starting from its own
+(* ---- SPEC (the remaining repair: counters, representation and dataset_output per thread too, each call starting from its own
         fresh registry / reset counters): ANY mix of parse-only calls and run()/semantic_analysis calls of ANY shape, in ANY
-        number, is serializable under every interleaving *)
+        number, is serializable under every interleaving with respect to ALL globals *)
 Definition spec_prog (kind : bool) (i : tid) (tok : val) (n k : nat) : prog :=
   if kind then prog_of_trace (gmap_spec i) tok (run_tags_spec n k) else prog_of_trace (gmap_spec i) tok parse_tags.
 
@@ -132,16 +195,20 @@ Example C17_nonvacuous :
   let progs := fun j => match j with 0 | 1 => spec_prog true j (Z.of_nat j + 1)%Z 1 1 | _ => [] end in
   let sched := flat_map (fun _ => [0; 1]) (seq 0 40) in
   finished sched progs 0 = true /\ finished sched progs 1 = true /\
-  Nat.ltb 2 (length (obs_of sched progs 0)) = true /\ confined disc_spec 0 (progs 0) = true /\
-  confined disc_impl 0 pA = false.
+  Nat.ltb 2 (length (obs_of sched progs 0)) = true /\ confined disc_spec W_all 0 (progs 0) = true /\
+  confined disc_impl W_all 0 pA = false /\ confined disc_impl W_reg 0 pA = true.
 Proof. vm_compute. repeat split. Qed.
 
 Print Assumptions C17_confined_serializable.
+Print Assumptions C17_confined_serializable_watched.
 Print Assumptions C17_confined_prefix.
 Print Assumptions C17_solo_is_alone.
-Print Assumptions C17_registry_race_refuted.
-Print Assumptions C17_registry_race_all_shapes_le3.
-Print Assumptions C17_run_skeleton_not_confinable.
+Print Assumptions C17_registry_serializable_impl.
+Print Assumptions C17_run_shape_reads_registry_after_set.
+Print Assumptions C17_registry_race_before_fix_refuted.
+Print Assumptions C17_registry_race_all_shapes_le3_before_fix.
 Print Assumptions C17_dataset_output_race_refuted.
+Print Assumptions C17_virtual_counter_race_refuted.
+Print Assumptions C17_run_skeleton_not_confinable.
 Print Assumptions C17_parse_calls_serializable_partial.
 Print Assumptions C17_spec_calls_serializable.
